@@ -1,7 +1,96 @@
-(* C01 - placeholder replaced below by the real statements (kept compiling at every commit). *)
-From Coq Require Import ZArith.
-From Verif Require Import Num.Amount Calc.Doc Calc.Calc.
+(* C01 - Invoice totals: structure of the calculation and, under the 'precise' rule, the distance
+   of presented totals from the exact value.
+   Property theorems only; every proof is `exact <lemma>` from Calc/BoundProofs.v (or reflexivity
+   for the model's constants).  The statements are about the calculation model Calc/Calc.v, tied to
+   bill/calculator.go, bill/line_calculate.go by the differential check tools/props/c01.py.
+   toQ a is the rational an amount denotes, roundQ e q is q rounded half away from zero to e
+   decimals, unitQ e = 10^-e (one unit of the e-th decimal; unitQ c is one minor currency unit). *)
+From Coq Require Import ZArith QArith Qabs List Bool.
+From Verif Require Import Base.Rha Num.Amount Num.AmountProofs Calc.Doc Calc.Calc Calc.BoundProofs.
+Import ListNotations.
+Open Scope Q_scope.
+
 Theorem calc_of_empty_document_has_no_totals c cr pit cur rates adv dues rnd :
   calculate (mkDoc c cr pit cur nil nil nil rates adv dues rnd) = NoTotals nil.
 Proof. reflexivity. Qed.
 Print Assumptions calc_of_empty_document_has_no_totals.
+
+(* the model's constants (bill.linePrecisionExtra, the "+ 2" of TotalCalculator.prepareLines) *)
+Theorem line_precision_extra_is_2 : line_precision_extra = 2%nat.
+Proof. reflexivity. Qed.
+Print Assumptions line_precision_extra_is_2.
+
+Theorem tax_precision_extra_is_2 : tax_precision_extra = 2%nat.
+Proof. reflexivity. Qed.
+Print Assumptions tax_precision_extra_is_2.
+
+(* plain_line l: no breakdown, no line discounts / charges, no taxes, item priced in the document
+   currency.  line_price c l: the price raised to at least c + 2 decimals (value unchanged).
+   Partial: lines with sub-lines, discounts, charges or a currency conversion are not covered. *)
+Theorem line_sum_is_rounded_product_partial c cur rates l : plain_line l ->
+  exists lc, calc_line false c cur rates l = Some lc /\
+    let e := exp (line_price c l) in
+    exp (lc_sum lc) = e /\ (c + 2 <= e)%nat /\
+    val (lc_sum lc) = roundQ e (toQ (it_price (ln_item l)) * toQ (ln_qty l)) /\
+    lc_total lc = lc_sum lc /\
+    Qabs (toQ (lc_sum lc) - toQ (it_price (ln_item l)) * toQ (ln_qty l)) <= (1 # 2) * unitQ (c + 2).
+Proof. exact (line_sum_is_rounded_product c cur rates l). Qed.
+Print Assumptions line_sum_is_rounded_product_partial.
+
+(* the accumulator of the document sum loses nothing; presentation moves a figure by at most half
+   a minor unit *)
+Theorem document_sum_is_exact_sum_of_line_totals xs s :
+  toQ (fold_left acc xs s) == toQ s + sumQ xs.
+Proof. exact (fold_acc_toQ xs s). Qed.
+Print Assumptions document_sum_is_exact_sum_of_line_totals.
+
+Theorem presentation_rounding_error a e : Qabs (toQ (rescale a e) - toQ a) <= (1 # 2) * unitQ e.
+Proof. exact (rescale_error a e). Qed.
+Print Assumptions presentation_rounding_error.
+
+(* FULL CLAIM (C01, last sentence), not proved here:
+     for every document d with d_currency_rule d = false and at most N lines (N "ordinary-sized"),
+     calculate d = Totals t implies, for EVERY presented figure f of t (sum, discount, charge,
+     tax included, total, tax, total with tax, payable, advances, due, every category / rate base
+     and amount, and every line's sum / total),
+        Qabs (toQ (f t) - exact_f d) < unitQ (d_c d)
+     where exact_f d is the same figure computed in exact rational arithmetic (no rounding).
+   PROVED below (_partial): the figures sum, total, total with tax and payable of a PLAIN document:
+   'precise' rule, 1..99 plain lines (see plain_line), no document discounts / charges, no
+   externally supplied rounding; exact_sum = sum over the lines of price x quantity.
+   Missing: line and document discounts and charges, taxes (group / category amounts, included
+   taxes), currency conversions, sub-line breakdowns, advances and due amounts. *)
+Theorem precise_sum_error_bound_partial d : plain_doc d -> (length (d_lines d) <= 99)%nat ->
+  exists t, calculate d = Totals t /\
+    t_total t = t_sum t /\ t_twt t = t_sum t /\ t_payable t = t_sum t /\
+    Qabs (toQ (t_sum t) - exact_sum (d_lines d)) < unitQ (d_c d).
+Proof. exact (precise_sum_error_bound d). Qed.
+Print Assumptions precise_sum_error_bound_partial.
+
+(* the bound behind it, for any number n of lines: n/200 + 1/2 minor units *)
+Theorem precise_sum_error_bound_n_lines_partial d : plain_doc d ->
+  exists t, calculate d = Totals t /\
+    t_total t = t_sum t /\ t_twt t = t_sum t /\ t_payable t = t_sum t /\
+    Qabs (toQ (t_sum t) - exact_sum (d_lines d)) <=
+      (inject_Z (Z.of_nat (length (d_lines d))) * (1 # 200) + (1 # 2)) * unitQ (d_c d).
+Proof. exact (precise_sum_error_bound_n d). Qed.
+Print Assumptions precise_sum_error_bound_n_lines_partial.
+
+(* 3 x 0.3333 + 7 x 1.005 at two decimals: exact 8.0349, presented 8.03 *)
+Definition c01_example_doc : doc :=
+  mkDoc 2 false [] 1
+        [mkLine (mkA 3 0) (mkItem (mkA 3333 4) None []) [] [] [] [];
+         mkLine (mkA 7 0) (mkItem (mkA 1005 3) None []) [] [] [] []]
+        [] [] [] [] [] None.
+Example precise_sum_error_bound_applies :
+  plain_doc c01_example_doc /\ (length (d_lines c01_example_doc) <= 99)%nat /\
+  plain_line (mkLine (mkA 3 0) (mkItem (mkA 3333 4) None []) [] [] [] []) /\
+  exists t, calculate c01_example_doc = Totals t /\ t_sum t = mkA 803 2 /\
+            exact_sum (d_lines c01_example_doc) == 80349 # 10000.
+Proof.
+  split; [|split; [|split]].
+  - unfold plain_doc, plain_line. cbn. repeat split; try discriminate. repeat constructor.
+  - cbn. repeat constructor.
+  - repeat split.
+  - eexists. split; [vm_compute; reflexivity|]. split; reflexivity.
+Qed.
